@@ -98,6 +98,7 @@ Definition res_eqb (a b : res value) : bool :=
   | RItems x, RItems y => out_eqb x y
   | RItemsCtx x c, RItemsCtx y d => out_eqb x y && opt_eqb ctx_eqb c d
   | RErr, RErr => true
+  | RIndexErr, RIndexErr => true
   | _, _ => false
   end.
 
@@ -110,7 +111,7 @@ Definition slot_eqb (a b : slot) : bool :=
 Definition entry_eqb (a b : entry) : bool := String.eqb (fst a) (fst b) && slot_eqb (snd a) (snd b).
 
 (* one observed __getitem__ call: the index form, outcome kind (0 = returned, 1 = ValueError,
-   2 = KeyError), whether a list was returned, the samples, the outermost loader calls *)
+   2 = KeyError, 3 = IndexError), whether a list was returned, the samples, the outermost loader calls *)
 Record hobs := {
   h_idx : index;
   h_kind : nat;
@@ -141,6 +142,7 @@ Record case_t := {
   c_prop : bool;                 (* mw.propagate_ctx *)
   c_hist : list hobs;
   c_iter : option (list (res value));
+  c_iter_kind : nat;             (* how iteration ended: 0 = exhausted, 2 = KeyError, 5 = a loader's own exception *)
   c_lenobs : Z;
   c_helpers : list helper;
   c_torch : list (list string * list value * string * option value)
@@ -158,6 +160,26 @@ Definition named_only (names : list string) : list string :=
 Definition has_err (l : list (res value)) : bool :=
   existsb (fun r => match r with RErr => true | _ => false end) l.
 
+(* the exception a list comprehension [self[i] for i in ...] ends with: that of its first failing element
+   (0 = none, 2 = KeyError, 3 = IndexError) *)
+Fixpoint first_err (l : list (res value)) : nat :=
+  match l with
+  | [] => 0%nat
+  | RErr :: _ => 2%nat
+  | RIndexErr :: _ => 3%nat
+  | _ :: r => first_err r
+  end.
+
+(* an int index >= len: not checked by ModeWrapper, handed to the loaders (whose answer beyond len is not part of
+   the rendered loader table): such accesses are compared neither with the model nor with the spec here; the Python
+   oracle states what is claimed for them *)
+Definition above_range (len : Z) (i : index) : bool :=
+  match i with
+  | IInt z => len <=? z
+  | IList l => existsb (fun z => len <=? z) l
+  | ISlice _ _ _ => false
+  end.
+
 Definition batch_eqb (a b : batch value) : bool :=
   match a, b with
   | BBare x, BBare y => value_eqb x y
@@ -167,17 +189,23 @@ Definition batch_eqb (a b : batch value) : bool :=
 
 (* model vs implementation for one call *)
 Definition hist_model_ok (st : stack value) (m : mwrap) (h : hobs) : bool :=
+  (* kind 5: a loader of the harness stack raised its own exception (loaders of the model are total functions);
+     whether it had to is decided by the Python oracle.  The accesses AFTER it are compared as usual: nothing of
+     the aborted sample may survive *)
+  if Nat.eqb (h_kind h) 5 then true else
+  if above_range (s_len value st) (h_idx h) then true else
   match getitem value VInt cproj st m (h_idx h) with
   | GValueError => Nat.eqb (h_kind h) 1
   | GOne r =>
       negb (h_many h) &&
       match r with
       | RErr => Nat.eqb (h_kind h) 2
+      | RIndexErr => Nat.eqb (h_kind h) 3
       | _ => Nat.eqb (h_kind h) 0 && list_eqb res_eqb [r] (h_res h) &&
              match h_log h with None => true | Some lg => list_eqb String.eqb (named_only (m_names m)) lg end
       end
   | GMany l =>
-      if has_err l then Nat.eqb (h_kind h) 2
+      if negb (Nat.eqb (first_err l) 0) then Nat.eqb (h_kind h) (first_err l)
       else Nat.eqb (h_kind h) 0 && h_many h && list_eqb res_eqb l (h_res h) &&
            match h_log h with
            | None => true
@@ -193,22 +221,31 @@ Fixpoint py_slice_walk (fuel : nat) (x stop step : Z) : list Z :=
   | S f => if py_before step x stop then x :: py_slice_walk f (x + step) stop step else []
   end.
 
-Definition spec_indices (len : Z) (i : index) : option (bool * list Z) :=
+(* Python sequence semantics of s[i] on a sequence of length len: None = IndexError *)
+Definition py_index_checked (len z : Z) : option Z :=
+  if (z <? - len) || (len <=? z) then None else Some (py_index len z).
+
+Definition spec_indices (len : Z) (i : index) : option (bool * list (option Z)) :=
   match i with
-  | IInt z => Some (false, [py_index len z])
-  | IList l => Some (true, map (py_index len) l)
+  | IInt z => Some (false, [py_index_checked len z])
+  | IList l => Some (true, map (py_index_checked len) l)
   | ISlice a b s =>
       let step := match s with None => 1 | Some k => k end in
       if step =? 0 then None
-      else Some (true, py_slice_walk (S (Z.to_nat len)) (py_start len step a) (py_stop len step b) step)
+      else Some (true, map Some (py_slice_walk (S (Z.to_nat len)) (py_start len step a) (py_stop len step b) step))
   end.
 
 Definition hist_spec_ok (st : stack value) (items : list string) (rc : bool) (h : hobs) : bool :=
+  if Nat.eqb (h_kind h) 5 then true else
+  if above_range (s_len value st) (h_idx h) then true else
   match spec_indices (s_len value st) (h_idx h) with
   | None => Nat.eqb (h_kind h) 1
   | Some (many, idxs) =>
-      let exp := map (spec_sample value VInt cproj st items rc) idxs in
-      if has_err exp then Nat.eqb (h_kind h) 2
+      let exp := map (fun oi => match oi with
+                                | Some i => spec_sample value VInt cproj st items rc i
+                                | None => RIndexErr
+                                end) idxs in
+      if negb (Nat.eqb (first_err exp) 0) then Nat.eqb (h_kind h) (first_err exp)
       else Nat.eqb (h_kind h) 0 && Bool.eqb many (h_many h) && list_eqb res_eqb exp (h_res h)
   end.
 
@@ -241,14 +278,14 @@ Definition check (c : case_t) : nat :=
           match c_iter c with
           | None => true
           | Some l => let exp := map (spec_sample value VInt cproj st items (c_rc c)) iter_idx in
-                      has_err exp || list_eqb res_eqb exp l
+                      if has_err exp then false else list_eqb res_eqb exp l
           end in
       let model_ok :=
           list_eqb entry_eqb (m_plan m) (c_plan c) && Bool.eqb (m_propagate m) (c_prop c) &&
           forallb (hist_model_ok st m) (c_hist c) &&
           (mw_len value st =? c_lenobs c) &&
           match c_iter c with
-          | None => has_err (iter value VInt cproj st m)
+          | None => Nat.eqb (c_iter_kind c) 5 || has_err (iter value VInt cproj st m)
           | Some l => list_eqb res_eqb (iter value VInt cproj st m) l
           end && helpers_ok in
       if negb spec_ok then 2%nat else if negb model_ok then 1%nat else 0%nat
